@@ -184,6 +184,10 @@ func runC08(c *Ctx) {
 					top = top.Parent()
 				}
 				hasReset := len(callsToFn(top, w.reset)) > 0
+				if !hasReset {
+					// a helper shared by the entry points: every caller goes through reset()
+					hasReset = allCallersSatisfy(p, top, 3, func(caller *ssa.Function) bool { return len(callsToFn(caller, w.reset)) > 0 })
+				}
 				c.check(hasReset, fn, construct, st.Pos(), "reached after reset() put the stream into the handshake state", "StateActive is stored in a function that does not go through reset(): a stream that is not handshaking becomes active")
 				continue
 			}
